@@ -106,6 +106,28 @@ CLAIMS = {
         'technique': 'exception-escape analysis over the resolved call graph '
                      '+ CFG guard-dominance + who-may-call (ast)',
     },
+    'C05': {
+        'text': 'Decides the guard structure access control depends on: who '
+                'may send USERAUTH_SUCCESS and set the authenticated state; '
+                'every send_success() in the seven ServerAuth classes is '
+                'dominated by the truthy edge of its validator plus the '
+                'method-specific conjuncts (signature present, GSS complete + '
+                'MIC verified, non-prompt challenge result); the public-key '
+                'and host-based validators return truthy only past '
+                'key.verify(String(session id) + request prefix, signature) '
+                'with the prefix captured before the signature is read and '
+                'the key derived from the same request; the request '
+                'sequencing of _process_userauth_request as a complete table '
+                '(finite abstract evaluation); a single source of the user '
+                'name; previous attempt cancelled; the seven permission '
+                'sites, permitopen and the forced command dominate their '
+                'privileged actions.',
+        'note': TB + 'not decided: interleavings of in-flight asynchronous '
+                'validators, admission of valid credentials (liveness), '
+                'application callbacks, agent signing.',
+        'technique': 'CFG guard-dominance + data-dependence + finite '
+                     'abstract evaluation + who-may-call (ast)',
+    },
 }
 
 PENDING = 'check not built yet in this session (planned, see DESIGN.md section 5)'
